@@ -421,6 +421,104 @@ def check_r18c(repo, rep, uni, local, shared):
     return n
 
 
+ONE_SHOT_BUILDERS = (
+    'builtins.map', 'builtins.filter', 'builtins.zip', 'builtins.iter',
+    'builtins.enumerate', 'builtins.reversed', 'itertools.chain',
+    'itertools.chain.from_iterable', 'itertools.islice',
+    'itertools.starmap', 'itertools.filterfalse', 'itertools.takewhile',
+    'itertools.dropwhile', 'itertools.accumulate', 'itertools.compress',
+    'itertools.zip_longest', 'itertools.groupby', 'itertools.pairwise',
+    'itertools.product', 'itertools.permutations', 'itertools.combinations')
+
+
+def check_no_captured_iterators(repo, rep, rule='R18h', modules=None):
+    """A nested function (or lambda) that is handed out of the call that
+    defines it -- returned, stored on an object, registered -- and reads a
+    variable of that call bound to a one-shot iterator (map / filter / zip /
+    a generator expression ...) shares one cursor among all its later calls:
+    the first call consumes what the next one needs, so the function's
+    answer depends on how often it ran before (and on other threads).  A
+    closure that is only called inside the defining call is exempt."""
+    n = 0
+    for fi in repo.all_functions():
+        if modules is not None and fi.module.name not in modules:
+            continue
+        inner = [g for g in fi.module.functions.values()
+                 if g.parent_func is fi]
+        lambdas = [x for x in model.walk_shallow(fi.node)
+                   if isinstance(x, ast.Lambda)]
+        if not inner and not lambdas:
+            continue
+        shots = {}
+        for st in model.walk_shallow(fi.node):
+            if isinstance(st, ast.Assign) and len(st.targets) == 1 and \
+                    isinstance(st.targets[0], ast.Name):
+                v = st.value
+                if isinstance(v, ast.GeneratorExp) or (
+                        isinstance(v, ast.Call) and repo.resolve(
+                            fi.module, v.func, model.scope_locals(fi))
+                        in ONE_SHOT_BUILDERS):
+                    shots[st.targets[0].id] = st
+        # rebound elsewhere to something re-iterable: not decided here
+        for nm in list(shots):
+            stores = [x for x in model.walk_shallow(fi.node)
+                      if isinstance(x, ast.Name) and x.id == nm and
+                      isinstance(x.ctx, ast.Store)]
+            if len(stores) != 1:
+                del shots[nm]
+        if not shots:
+            continue
+        for g in [x.node for x in inner] + lambdas:
+            own = model.local_names_of(g) if not isinstance(
+                g, ast.Lambda) else {a.arg for a in g.args.args}
+            used = {x.id for x in ast.walk(g) if isinstance(x, ast.Name) and
+                    isinstance(x.ctx, ast.Load)} - own
+            hit = sorted(used & set(shots))
+            if not hit:
+                continue
+            # does the closure leave the call?
+            name = getattr(g, 'name', None)
+            escapes = False
+            if name is None:
+                par = getattr(g, '_parent', None)
+                escapes = not (isinstance(par, ast.Call) and par.func is g)
+                # a lambda passed to a consumer inside the call
+                if isinstance(par, ast.Call) and g in par.args and \
+                        repo.resolve(fi.module, par.func,
+                                     model.scope_locals(fi)) in (
+                            'builtins.sorted', 'builtins.min',
+                            'builtins.max', 'builtins.any', 'builtins.all',
+                            'builtins.list', 'builtins.tuple'):
+                    escapes = False
+            else:
+                for x in model.walk_shallow(fi.node):
+                    if isinstance(x, ast.Name) and x.id == name and \
+                            isinstance(x.ctx, ast.Load):
+                        par = getattr(x, '_parent', None)
+                        if not (isinstance(par, ast.Call) and
+                                par.func is x):
+                            escapes = True
+            if not escapes:
+                continue
+            for nm in hit:
+                n += 1
+                rep.ob(rule, '%s/%s captures %s' % (
+                    fi.key, name or 'lambda', nm), False,
+                    '`%s` is a one-shot iterator (%s) made once per call of '
+                    '%s, and the function `%s`, which is handed out of that '
+                    'call, reads it every time it runs: the first run '
+                    'consumes what later runs (and other threads) need' % (
+                        nm, model.norm(shots[nm].value)[:60], fi.qualname,
+                        name or 'lambda'),
+                    loc=fi.module.loc(shots[nm]),
+                    construct=model.norm(shots[nm])[:120])
+    if not n:
+        rep.ob(rule, 'closures/no-captured-iterator', True,
+               'no escaping closure reads a one-shot iterator of the call '
+               'that made it')
+    return n
+
+
 PROCESS_SETTERS = (
     'sys.setrecursionlimit', 'sys.set_int_max_str_digits',
     'sys.setswitchinterval', 'sys.settrace', 'sys.setprofile',
@@ -584,6 +682,9 @@ def run(repo, rep):
              'evaluation-time code (yaql.eval caches listed with reason)')
     rep.rule('R18e', 'PRIVATE-CHILD: evaluate() calls issued by the library '
              '/ host API pass a child context, never a shared one')
+    rep.rule('R18h', 'NO-CAPTURED-ITERATORS: no function that outlives the '
+             'call that made it reads a one-shot iterator of that call')
+    check_no_captured_iterators(repo, rep)
     rep.rule('R18c', 'STATEFUL-LAZY-OBJECTS-ARE-CALL-LOCAL: classes whose '
              'methods store to self after construction are instantiated '
              'only inside function bodies')
